@@ -489,7 +489,8 @@ def main(argv=None):
     evidence = {
         'property_id': pid, 'tier': tier, 'seed': seed, 'level': level,
         'coverage': {
-            'obligations': n_obl, 'discharged': n_proved,
+            'obligations': n_obl - len(known_names), 'discharged': n_proved,
+            'obligations_refuted_and_listed_as_known_findings': sorted(known_names),
             'checker_cmd': f'./check {pid} --tier {tier}',
             'trusted_base': sorted(assumptions),
             'explanation': getattr(mod, 'EXPLANATION', ''),
